@@ -134,6 +134,8 @@ def run(ctx):
     t = Transaction(network='bitcoin', witness_type='segwit')
     t.add_input(bytes(range(32)), 1, keys=[k1], script_type='sig_pubkey', value=100000, witness_type='segwit')
     t.add_output(60000, lock_script=b'\x00\x14' + bytes(20))
+    t.add_output(0, lock_script=b'\x6a\x03abc')
+    t.add_output(1234, lock_script=b'\x00\x14' + b'\x09' * 20)
     t.sign([k1])
     rawhex = t.raw_hex()
 
@@ -321,6 +323,10 @@ def run(ctx):
         tj = Transaction(network='bitcoin', witness_type='segwit')
         tj.add_input(bytes([j + 1]) * 32, 0, keys=[kk], script_type='sig_pubkey', value=50000, witness_type='segwit')
         tj.add_output(40000, lock_script=b'\x00\x14' + bytes([j]) * 20)
+        if j != 1:
+            # a data carrier output of value 0 before another paying output (what a cache must store like any other output)
+            tj.add_output(0, lock_script=b'\x6a\x04' + bytes([0x40 + j]) * 4)
+            tj.add_output(700 + j, lock_script=b'\x00\x14' + bytes([0x30 + j]) * 20)
         tj.sign([kk])
         txs.append(tj.raw_hex())
 
